@@ -801,3 +801,52 @@ def rule_q_sz_related(chk, A):
                               "size of %s): `.1D` is accepted and encoded with the reserved size:Q combination" % (qn, mates[0][1], qop),
                        key="qsz|%s|%d" % ("+".join(r[5:] for r in reg), n))
     chk.floor(R + ":cases", n, 4)
+
+
+def rule_id_range_raw(chk, emit, tag):
+    """the first range test of the instruction id looks at the id the caller passed"""
+    from .cfg import forward
+    R = "R-ID-RANGE-ON-RAW"
+    chk.rule(R, "_emit: some comparison of the `inst_id` parameter with Inst::_kIdCount is evaluated while the parameter still holds the value "
+                "the caller passed (no assignment to it can have happened): the id is masked / replaced afterwards, so a test that only sees the "
+                "masked id lets ids with extra bits (a condition code on a non-branch, unknown high bits) take the fast path")
+    pd = [p["did"] for p in emit.params if p["name"] == "inst_id"]
+    chk.need(len(pd) == 1, "%s: parameter inst_id not found" % tag)
+    pd = pd[0]
+    assigns = set()
+    tests = []
+    for i, x in emit.ex.items():
+        if x["k"] == "binop" and x["op"].endswith("=") and x["op"] not in ("==", "!=", "<=", ">="):
+            l = emit.e(emit.strip(x["lhs"]))
+            if l is not None and l["k"] == "ref" and l.get("did") == pd:
+                assigns.add(i)
+        if x["k"] == "binop" and x["op"] in ("<", "<=", ">", ">=") and "_kIdCount" in emit.text(i):
+            if any((emit.e(j) or {}).get("did") == pd for j in emit.walk(i)):
+                tests.append(i)
+    chk.need(len(tests) >= 1, "%s: no comparison of inst_id with _kIdCount" % tag)
+
+    def transfer(b, st):
+        for el in emit.blocks[b]["elems"]:
+            if isinstance(el, int) and el in assigns:
+                st = True
+        return st
+    IN, OUT = forward(emit, False, transfer, lambda ss: any(ss))
+    blk = emit.block_of()
+    par = emit.parent_map()
+    raw = []
+    for t in tests:
+        j = t
+        while j not in blk and j in par:
+            j = par[j]
+        if j not in blk:
+            continue
+        b, idx = blk[j]
+        dirty = IN.get(b, False)
+        for el in emit.blocks[b]["elems"][:idx]:
+            if isinstance(el, int) and el in assigns:
+                dirty = True
+        if not dirty:
+            raw.append(t)
+    chk.ob(R, "%s|inst_id" % tag, bool(raw), loc=emit.loc(tests[0]),
+           detail="every comparison of inst_id with _kIdCount in %s can run after inst_id was re-assigned (masked): ids that carry extra bits are "
+                  "not recognised as needing the checked path" % tag, key="idraw|%s" % tag)
